@@ -2,7 +2,7 @@
    [RkCase]: a miner set added in some order, the draws of the seed's generator, and what the
    real code computed (pool order, permutation, rank per miner, GetMinersByRank order).
    [RsCase]: SetRandomSeed/SetRandomSeedForNotarizedBlock calls, final seed and the seed the
-   stored permutation belongs to.
+   stored permutation belongs to (seed and miner count).
    [NbCase]: an op history on a real round with the outputs and the final block lists.
    To keep the case files small, miners and block objects are listed once in a table and
    referred to by index (a presentation encoding only; [rk_check] expands it). *)
@@ -22,7 +22,7 @@ Inductive rk_case :=
          (order : list nat)         (* AddNode sequence *)
          (draws : list nat) (shuffled : list nat)
          (pool : list nat) (perm : list nat) (ranks : list Z) (* rank of pool member k *) (byrank : list nat)
-| RsCase (ops : list rs_op) (seed : Z) (permseed : option Z)
+| RsCase (ops : list rs_op) (seed : Z) (permkey : option (Z * Z))
 | NbCase (blocks : list (Z * Z))    (* (hash, rank) of object i; its token is i+1 *)
          (ops : list nb_opi) (outs : list nb_outi) (proposed notarized : list nat).
 
@@ -62,9 +62,9 @@ Definition rk_check (c : rk_case) : bool :=
       list_eqb Nat.eqb m perm &&
       list_eqb (option_eqb Z.eqb) (map (rk_rank p m) p) (map Some ranks) &&
       list_eqb Z.eqb (rk_by_rank p m (map key shuffled)) (map key byrank)
-  | RsCase ops seed permseed =>
+  | RsCase ops seed permkey =>
       let s := rs_run ops in
-      Z.eqb (rs_seed s) seed && option_eqb Z.eqb (rs_permseed s) permseed
+      Z.eqb (rs_seed s) seed && option_eqb zz_eqb (rs_permkey s) permkey
   | NbCase blocks ops outs proposed notarized =>
       let '(r, o) := nb_run nb_code_fixed nb_init (map (nb_op_of blocks) ops) in
       list_eqb nb_out_eqb o (map (nb_out_of blocks) outs) &&
